@@ -500,9 +500,48 @@ def check_queue(ctx, chk, db, W, ents, fb):
                 "X9", "OrderQueue:prints-listing", e.callsite, "Display does not print to_vec()")
 
 
+
+def slots_by_key(fb, allres, names):
+    """{key literal: {loop-carried Option<&str> locals assigned in the iteration that matched that literal}} for a parser
+    that collects `key=value` parts into slot variables (`"price" => price_part = Some(value)`)"""
+    slot_of_key = {}
+    for r in allres:
+        if r.kind != "backedge" or r.detail[1] != fb.defp:
+            continue
+        marks = [e for e in r.trace if e[0] == "loop" and e[3] == fb.defp]
+        if not marks:
+            continue
+        key = marks[0][1]
+        if "%s@bb%d" % (r.detail[1], r.detail[2]) != key:
+            continue
+        lits = [lit_of(a[1]) or lit_of(a[2]) for a, p in r.facts.order if a[0] == "eq" and p is True and (lit_of(a[1]) or lit_of(a[2]))]
+        lits = [l for l in lits if l in names]
+        if len(lits) != 1:
+            continue
+        fr = r.state.frames[0]
+        for l, pre in marks[0][2].items():
+            if not isinstance(l, int):
+                continue    # loop-carried heap field, not a local
+            ty = fr.body.locals[l]["ty"]
+            if "Option<&" in ty and "str" in ty:
+                nv = fr.locals.get(l)
+                if nv != ("havoc", key, l):
+                    slot_of_key.setdefault(lits[0], set()).add(l)
+    return slot_of_key
+
+
 def check_level(ctx, chk, db, W, ents, fb):
-    e = ents[0]
-    chk.require(len(ents) == 1, "X9", "PriceLevel:writer-shape", e.callsite, "%d templates" % len(ents))
+    # writer shape: one header template with the keyed scalars and `orders=[`, then the orders - either `{}` filled by a
+    # joined string inside the header, or one `{}` element template per order with the joiner and the closing bracket
+    # written as literals (write_str / write_char / write!)
+    heads = [x for x in ents if "orders=[" in x.template]
+    e = heads[0] if heads else ents[0]
+    others = [x for x in ents if x is not e]
+    elem = [x for x in others if len(x.placeholders()) == 1 and x.literal_text() == ""]
+    lits = [x.literal_text() for x in others if not x.placeholders()]
+    streamed = not e.template.endswith("]")
+    chk.require(len(heads) == 1 and (not others or (streamed and len(elem) == 1 and len(others) - len(elem) == len(lits))),
+                "X9", "PriceLevel:writer-shape", e.callsite, "%d templates: %s" % (len(ents), [x.template for x in ents]))
     phs = e.placeholders()
     wkeys = {}
     for k, ai, trait, default, prev in phs:
@@ -524,7 +563,22 @@ def check_level(ctx, chk, db, W, ents, fb):
             c = t["callee"]
             if c and c["name"] == "get" and "HashMap" in (c.get("impl_self") or "") and len(t["args"]) > 1:
                 rkeys.add(_const_str_arg(bd, t["args"][1]))
-    chk.require(rkeys <= set(wkeys) and {"price", "orders"} <= rkeys, "X2", "PriceLevel", e.callsite,
+    # slot-variable parsers: `"price" => price_part = Some(value)` instead of a map
+    lslots = slots_by_key(fb, res, {"price", "orders", "visible_quantity", "hidden_quantity", "order_count"})
+    used_slots = set()
+    for r in oks:
+        for ev in r.trace:
+            if ev[0] == "call" and ev[1].endswith("PriceLevel::new"):
+                used_slots |= {x[2] for x in subterms(ev[3][2][0]) if isinstance(x, tuple) and x[0] == "havoc" and len(x) == 3 and isinstance(x[2], int)}
+    for k, ls in lslots.items():
+        if k == "price" and not (ls & used_slots):
+            continue
+        rkeys.add(k)
+    strs0, _chars0 = T.str_and_char_consts(db, fb, T.helpers_of(ctx, fb))
+    if not any("HashMap" in ((t["callee"] or {}).get("impl_self") or "") for d in T.helpers_of(ctx, fb) for bb, t in db.bodies[d].calls()) and "orders=[" in strs0:
+        rkeys.add("orders")      # the order list is located by searching for its `orders=[` opener
+    wkeyset = set(wkeys) | ({"orders"} if re.search(r"(?:^|[;:])orders=\[$", e.template) else set())
+    chk.require(rkeys <= wkeyset and {"price", "orders"} <= rkeys, "X2", "PriceLevel", e.callsite,
                 "keys written %s; keys the parser consults %s (content = price + orders)" % (sorted(wkeys), sorted(str(k) for k in rkeys)))
     for r in oks:
         pre = T.ReaderPath(r).prefixes
@@ -533,6 +587,9 @@ def check_level(ctx, chk, db, W, ents, fb):
         okn = len(news) == 1
         if okn:
             ks = [lit_of(s[2][1]) for s in subterms(news[0][3][2][0]) if isinstance(s, tuple) and s[0] == "call" and s[1].endswith("HashMap::get")]
+            if not ks:
+                hv = {x[2] for x in subterms(news[0][3][2][0]) if isinstance(x, tuple) and x[0] == "havoc" and len(x) == 3 and isinstance(x[2], int)}
+                ks = sorted(k for k, ls in lslots.items() if ls & hv)
             calls = [s[1].split("::")[-1] for s in subterms(news[0][3][2][0]) if isinstance(s, tuple) and s[0] == "call"]
             chk.require(ks == ["price"] and "parse" in calls, "X3", "PriceLevel:price", e.callsite, "the level's price is read from key(s) %s via %s" % (ks, calls[:3]), describe_path(r))
         chk.require(okn, "X3", "PriceLevel:new", fb.span, "%d PriceLevel::new calls on an Ok path" % len(news))
@@ -541,11 +598,23 @@ def check_level(ctx, chk, db, W, ents, fb):
         if k in wkeys:
             chk.require(wkeys[k][2] == "Display" and wkeys[k][3], "X4", "PriceLevel:%s:format" % k, e.callsite, "key %s written with {:%s}" % (k, wkeys[k][2]))
     o = wkeys.get("orders")
-    j = T.list_joiner(db, ctx.db.method("PriceLevel", "fmt", trait="Display"), o[1] if o else None)
+    dfmt = ctx.db.method("PriceLevel", "fmt", trait="Display")
+    if streamed:
+        # literals written around the elements: exactly one joiner and the closing bracket
+        wl = set(T.writer_joiners(db, dfmt)) | set(lits)
+        closers = {x for x in wl if x == "]"}
+        js = wl - closers
+        j = next(iter(js)) if len(js) == 1 else None
+        chk.require(len(closers) == 1, "X9", "PriceLevel:writer-brackets", e.callsite, "no closing bracket is written after the orders (literals %s)" % sorted(wl))
+        if elem:
+            ph = elem[0].placeholders()[0]
+            chk.require(ph[2] == "Display" and ph[3], "X4", "PriceLevel:orders:format", elem[0].callsite, "orders written with {:%s}" % ph[2])
+    else:
+        j = T.list_joiner(db, dfmt, o[1] if o else None)
     strs, chars = T.str_and_char_consts(db, fb, T.helpers_of(ctx, fb))
     chk.require(j is not None and j in chars, "X9", "PriceLevel:joiner", e.callsite, "orders joined with %r; parser splits on %s" % (j, sorted(chars)))
     chk.require("orders=[" in strs and "]" in chars, "X9", "PriceLevel:brackets", e.callsite, "parser looks for %s / %s" % (sorted(s for s in strs if "[" in s), sorted(chars)))
-    chk.require("orders=[" in e.template and e.template.endswith("]"), "X9", "PriceLevel:writer-brackets", e.callsite, "template %r" % e.template)
+    chk.require("orders=[" in e.template and (streamed or e.template.endswith("]")), "X9", "PriceLevel:writer-brackets", e.callsite, "template %r" % e.template)
     bad = [l for l in W.literals("OrderType") if set(l) & set((j or ",") + "[]()")]
     chk.require(not bad, "X5", "PriceLevel:element-alphabet", e.callsite, "order literal %r contains the joiner or a bracket" % (bad[0] if bad else ""))
     chk.require(ctx.db.method("OrderType", "from_str", trait="FromStr").defp in ctx.cg.reach([fb.defp]), "X9", "PriceLevel:element-parser", fb.span, "orders not parsed with OrderType::from_str")
@@ -575,29 +644,7 @@ def check_match_result(ctx, chk, db, W, adt, ents, paths, allres, fb):
     for p in paths:
         chk.require(tag in p.prefixes, "X1", "MatchResult", ents[0].callsite, "Display writes tag %r, parser requires %s" % (tag, p.prefixes), describe_path(p.r))
     # slot binding: key literal matched in an iteration -> loop-carried slot set -> field of the result built from that slot
-    slot_of_key = {}
-    for r in allres:
-        if r.kind != "backedge" or r.detail[1] != fb.defp:
-            continue
-        marks = [e for e in r.trace if e[0] == "loop" and e[3] == fb.defp]
-        if not marks:
-            continue
-        key = marks[0][1]
-        if "%s@bb%d" % (r.detail[1], r.detail[2]) != key:
-            continue
-        lits = [lit_of(a[1]) or lit_of(a[2]) for a, p in r.facts.order if a[0] == "eq" and p is True and (lit_of(a[1]) or lit_of(a[2]))]
-        lits = [l for l in lits if l in ftys]
-        if len(lits) != 1:
-            continue
-        fr = r.state.frames[0]
-        for l, pre in marks[0][2].items():
-            if not isinstance(l, int):
-                continue    # loop-carried heap field, not a local
-            ty = fr.body.locals[l]["ty"]
-            if "Option<&" in ty and "str" in ty:
-                nv = fr.locals.get(l)
-                if nv != ("havoc", key, l):
-                    slot_of_key.setdefault(lits[0], set()).add(l)
+    slot_of_key = slots_by_key(fb, allres, ftys)
     allslots = set(l for ls in slot_of_key.values() for l in ls)
     for f in ftys:
         used = set()
